@@ -441,7 +441,8 @@ def build_F(cfg, only=None):
         elif cfg["solver"] == "mle":
             sol = pdq.solver_mle(strategy=strat, constraint=con)
         else:  # the stop-gradient is excluded from the claim: differentiate through the calibration
-            sol = pdq.solver_dynamic(strategy=strat, constraint=con, stop_gradient_through_calibration=False)
+            sol = pdq.solver_dynamic(strategy=strat, constraint=con, stop_gradient_through_calibration=False,
+                                     re_linearize_after_calibration=bool(cfg.get("relin", False)))
         damp = P["damp"][0] if "damp" in P else 0.0
         s = ivpsolve.solve_fixed_grid(solver=sol)(prior, grid=grid, damp=damp)
         if only == "std_t0":
@@ -1044,6 +1045,9 @@ def corpus():
     out.append(("corpus:D5:ts0-cov-param", add_loss(base_cfg(lg, solver="mle", strategy="fixedinterval", lin="ts0", init="exact", scale=[1.5], damp=0.125))))
     # D5 through the dynamic calibration (no stop-gradient requested)
     out.append(("corpus:D5:dyn-calibration", add_loss(base_cfg(lg, solver="dynamic", strategy="fixedinterval", lin="ts0", init="inexact"))))
+    # the same with re-linearisation after the calibration (TS0 / TS1 linearise at the mean, which the calibration does not move:
+    # values and derivatives are those of the plain dynamic solver; the two constructor flags must not be mixed up)
+    out.append(("corpus:dyn-relinearise", base_cfg(lg, fact="iso", solver="dynamic", strategy="filter", lin="ts0", init="exact", relin=True, grid=[0.0, 0.125, 0.375, 0.5, 0.75])))
     # D5 through the MLE calibration in the losses, two dimensions, dense, unequal noise; theta / u0 gradients of means, stds, scale pass
     out.append(("corpus:D5:mle-calibration", add_loss(base_cfg(L.lotka_volterra(), solver="mle", strategy="fixedinterval", lin="ts0", init="exact", theta=[0.5, 0.75, 1.0, 0.25], u0=[1.0, 0.5],
                                                                   grid=[0.0, 0.125, 0.25, 0.5]), unequal=True)))
@@ -1084,6 +1088,8 @@ def random_cfg(ctx, it):
                    eps=float(2.0 ** rng.integers(-8, -3)), grid=grid,
                    theta=[float(x) if x != 0 else 0.5 for x in (gen.dyadic(rng, (field.p,), bits=3) + np.sign(rng.random(field.p) - 0.3) * 1.0)],
                    u0=[float(x) for x in (0.25 + np.abs(gen.dyadic(rng, (field.d,), bits=3)) * 0.5)])
+    if solver == "dynamic":
+        cfg["relin"] = bool(rng.random() < 0.5)
     if rng.random() < 0.5:
         cfg["scale"] = [float(2.0 ** rng.integers(-2, 2)) * (1.0 + 0.25 * a) for a in range(per)]
     if rng.random() < 0.5:
@@ -1094,6 +1100,88 @@ def random_cfg(ctx, it):
 
 
 # ================================================================================================
+
+
+def check_adaptive_stopped_dt(ctx, it):
+    """The step sizes of an adaptive solve are constants for the differentiation (stop-gradient through dt, requested by the
+    implementation itself): the forward-mode derivative of an adaptive solve equals the derivative of the fixed-grid solve on
+    the realised grid, which the solver-level part compares with directional derivatives of the computed quantities."""
+    import jax
+    import jax.numpy as jnp
+    from probdiffeq import ivpsolve
+    from probdiffeq import probdiffeq as pdq
+    from probdiffeq.util import test_util
+
+    rng = ctx.rng
+    fact = ["iso", "dense", "bd"][it % 3]
+    solver_kind = gen.pick(rng, ["solver", "mle", "dynamic"])
+    lin = gen.pick(rng, ["ts0", "ts1"])
+    q = int(rng.integers(2, 4))
+    tol = float(10.0 ** rng.uniform(-5, -3))
+    t1 = float(gen.pick(rng, [1.0, 2.0, 3.0]))
+    th0 = float(gen.pick(rng, [0.75, 1.0, 1.5]))
+    clip = bool(it % 2 == 0)
+    case = {"fact": fact, "solver": solver_kind, "lin": lin, "q": q, "tol": tol, "t1": t1, "theta": th0, "clip_dt": clip, "u0": 0.25, "field": "logistic th*u*(1-u)"}
+
+    def make(th):
+        ssm = {"dense": pdq.state_space_model_dense, "iso": pdq.state_space_model_isotropic, "bd": pdq.state_space_model_blockdiag}[fact]()
+        vf = pdq.ode(lambda u, /, *, t: th * u * (1 - u), jacobian=pdq.jacobian_materialize())
+        tcoeffs, _ = pdq.jetexpand_ode_padded_scan(num=q)(vf, (jnp.asarray([0.25]),), t=0.0)
+        prior = ssm.prior_wiener_integrated(tcoeffs)
+        con = ssm.constraint_ode_ts0(vf) if lin == "ts0" else ssm.constraint_ode_ts1(vf)
+        strat = pdq.strategy_filter()
+        if solver_kind == "solver":
+            sol = pdq.solver(strategy=strat, constraint=con)
+        elif solver_kind == "mle":
+            sol = pdq.solver_mle(strategy=strat, constraint=con)
+        else:
+            sol = pdq.solver_dynamic(strategy=strat, constraint=con, stop_gradient_through_calibration=False)
+        return prior, sol, pdq.error_residual_std(constraint=con)
+
+    prior, sol, err = make(jnp.asarray(th0))
+    ts = np.asarray(test_util.solve_adaptive_save_every_step(sol, err, clip_dt=clip)(prior, 0.0, t1, atol=tol, rtol=tol, dt0=0.1).t)
+    if len(ts) < 4 or not np.all(np.isfinite(ts)):
+        ctx.skip("adaptive stop-gradient case: fewer than three accepted steps")
+        return
+    if not clip:
+        # the last step ends beyond t1: solve adaptively up to the last accepted step end inside [0, t1] instead (same steps,
+        # same number of calibration terms; the final state is the step's own posterior)
+        ts = ts[:-1]
+
+    def f_adaptive(th):
+        prior, sol, err = make(th)
+        if clip:
+            s = ivpsolve.solve_adaptive_terminal_values(sol, err, clip_dt=True)(prior, t0=jnp.asarray(0.0), t1=jnp.asarray(t1), atol=tol, rtol=tol, dt0=0.1)
+            return s.u.mean[0].reshape(-1), s.u.std[0].reshape(-1)
+        s = ivpsolve.solve_adaptive_save_at(solver=sol, error=err, clip_dt=False)(prior, save_at=jnp.asarray([0.0, float(ts[-1])]), atol=tol, rtol=tol, dt0=0.1)
+        return s.u.mean[0][-1].reshape(-1), s.u.std[0][-1].reshape(-1)
+
+    def f_fixed(th):
+        prior, sol, _ = make(th)
+        s = ivpsolve.solve_fixed_grid(solver=sol)(prior, grid=jnp.asarray(ts), damp=0.0)
+        return s.u.mean[0][-1].reshape(-1), s.u.std[0][-1].reshape(-1)
+
+    (ma, sa), (dma, dsa) = jax.jvp(f_adaptive, (jnp.asarray(th0),), (jnp.asarray(1.0),))
+    (mf, sf), (dmf, dsf) = jax.jvp(f_fixed, (jnp.asarray(th0),), (jnp.asarray(1.0),))
+    ctx.evaluations += 1
+    ctx.case(dict(case, mode="adaptive-vs-realised-grid", steps=len(ts) - 1))
+    ctx.count(f"adaptive stop-gradient clip_dt={clip}")
+    vals = float(max(np.max(np.abs(np.asarray(ma) - np.asarray(mf)) / (np.abs(np.asarray(mf)) + 1e-300)), np.max(np.abs(np.asarray(sa) - np.asarray(sf)) / (np.abs(np.asarray(sf)) + 1e-300))))
+    if not clip and vals > 1e-9:
+        # without clipping the checkpoint equals a step end only up to the at-step-end tolerance; values must still agree
+        ctx.skip("adaptive stop-gradient case: checkpoint at a step end not reproduced")
+        return
+    if vals > 1e-9:
+        ctx.skip(f"adaptive stop-gradient case: fixed-grid replay of the realised grid deviates by {vals:.1e} (C05/C06 territory)")
+        return
+    for name, a, b in (("mean", dma, dmf), ("std", dsa, dsf)):
+        a, b = np.asarray(a, dtype=np.float64), np.asarray(b, dtype=np.float64)
+        if not (np.all(np.isfinite(a)) and np.all(np.isfinite(b))):
+            ctx.violation(f"adaptive:stopped-dt:{name}:nonfinite", f"forward-mode derivative of the adaptive solve ({name}) is not finite", case)
+            continue
+        dev = float(np.max(np.abs(a - b) / (np.abs(b) + 1e-6 * (1 + np.max(np.abs(b))))))
+        ctx.dev(f"adaptive.stopped-dt.{name}", dev, 1e-6, case=case, sig=f"adaptive:stopped-dt:{name}",
+                what=f"forward-mode derivative of the adaptive solve ({name}) differs from the derivative on the realised grid by {dev:.2e}: the step sizes are not treated as constants")
 
 
 def run(ctx):
@@ -1112,7 +1200,7 @@ def run(ctx):
         "and vs the dual-number model (filter, solver / mle, q <= 2, <= 3 steps); distinct = different (configuration, field, parameter set)"
     )
     ctx.assumptions += [
-        "the claim excludes requested stop-gradients: solver_dynamic is differentiated with stop_gradient_through_calibration=False; adaptive step selection (stop_gradient_through_dt) is not differentiated",
+        "the claim excludes requested stop-gradients: solver_dynamic is differentiated with stop_gradient_through_calibration=False; adaptive step selection is differentiated only to confirm that the step sizes are constants: jvp of the adaptive solve = jvp of the fixed-grid solve on the realised grid (clip_dt on / off)",
         "finite differences: 3-level Richardson extrapolation in float64; entries whose error estimate exceeds 0.2% of the tolerance are skipped and counted",
         "derivative oracle where covered: Pdq.Model.Solver / Iwp instantiated at Dual Rat (theorems dual_number_derivative, solver_step_dual_is_derivative); linearisation and initial Taylor coefficients evaluated in exact dual arithmetic on the Python side",
         "attribution to D5 uses a triangular tangent of qr_r patched into probdiffeq.backend.linalg inside the harness process only (no source change)",
@@ -1164,3 +1252,7 @@ def run(ctx):
             check_config(ctx, cfg, rule, res, {"tag": tag})
             tm["compare"] = round(tm.get("compare", 0) + time.time() - tc, 1)
     tm["solver-level wall"] = round(time.time() - t_, 1)
+    ta = time.time()
+    for it in range(ctx.n(2, 12)):
+        guarded(ctx, "adaptive:stopped-dt", check_adaptive_stopped_dt, ctx, it)
+    tm["adaptive stop-gradient"] = round(time.time() - ta, 1)
